@@ -20,8 +20,10 @@
 
 enum { EV_ADD = 0, EV_RUN, EV_REPLY_OLDEST, EV_REPLY_NEWEST, EV_REPLY_DUP, EV_REPLY_UNKNOWN, EV_REPLY_STALE, EV_REPLY_BADMAC, EV_REPLY_STATUS,
        EV_ERROR_PDU, EV_PUSH_CONF, EV_DELIVER_1, EV_DELIVER_HALF, EV_DELIVER_ALL, EV_PEER_CLOSE, EV_NEXT_CONNECT_REFUSED, EV_NEXT_CONNECT_PENDING,
-       EV_SEND_WOULDBLOCK, EV_SEND_PARTIAL, EV_CLOCK_1, EV_CLOCK_BIG, EV_NEVENTS };
-static const char EVCH[EV_NEVENTS + 1] = "ARonduxmseg1haCXPwp+T";
+       EV_SEND_WOULDBLOCK, EV_SEND_PARTIAL, EV_CLOCK_1, EV_CLOCK_BIG, EV_NEVENTS,
+       EV_ADD_CONF = EV_NEVENTS,   /* a configuration request: only in the alphabet of part "conf" */
+       EV_NALL };
+static const char EVCH[EV_NALL + 1] = "ARonduxmseg1haCXPwp+TK";
 
 typedef struct { int cache, maxreq, snd, rcv, con; } config_t;
 
@@ -33,6 +35,8 @@ typedef struct {
 	long add_step;
 	int sent_complete, valid_reply_arrived, id_reply_arrived, stale_id_reply_arrived, returned;
 	int answered;                   /* server side: a valid reply was queued */
+	int is_conf;                    /* a configuration request (no id, no cache slot) */
+	long conf_seen_at_add;          /* authentic configuration payloads that had arrived when it was accepted */
 } sreq_t;
 
 typedef struct {
@@ -58,12 +62,13 @@ typedef struct {
 	time_t connect_started; int connecting;
 	long step;                      /* events applied so far */
 	int conf_pending;               /* authentic pushed configurations that reached the client and are not yet accounted for by a returned notice */
+	long conf_arrived;              /* authentic configuration payloads that reached the client so far */
 	int violated;
 } world_t;
 static world_t W;
 static char g_hist[40];
 static int g_cfg;
-#define HF(sig, ...) do { char _m[900]; snprintf(_m, sizeof _m, __VA_ARGS__); vf_fail(sig, "%s [history %s cfg %d; letters ARonduxmseg1haCXPwp+T = add,run,reply-oldest,reply-newest,dup,unknown-id,stale-id,bad-mac,status,error-pdu,push-conf,deliver1,half,all,peer-close,refuse-next-connect,pending-connect,send-wouldblock,send-partial,clock+1,clock+big]", _m, g_hist, g_cfg); } while (0)
+#define HF(sig, ...) do { char _m[900]; snprintf(_m, sizeof _m, __VA_ARGS__); vf_fail(sig, "%s [history %s cfg %d; letters ARonduxmseg1haCXPwp+T = add,run,reply-oldest,reply-newest,dup,unknown-id,stale-id,bad-mac,status,error-pdu,push-conf,deliver1,half,all,peer-close,refuse-next-connect,pending-connect,send-wouldblock,send-partial,clock+1,clock+big; K = add configuration request]", _m, g_hist, g_cfg); } while (0)
 
 /* ------------------------------------------------------------------ environment hooks */
 static int h_connect(sn_conn *c) {
@@ -84,14 +89,18 @@ static void h_after_send(sn_conn *c) {
 	for (;;) {
 		rtlv t;
 		rp_req r;
-		int i;
+		int i, parsed;
 		if (c->parsed_out >= c->out.n || rtlv_read(c->out.p + c->parsed_out, c->out.n - c->parsed_out, &t) != 0) break;
-		if (rp_parse_request(c->out.p + c->parsed_out, t.hdr + t.len, RP_AGGR, &r) == 0 && r.has_req) {
+		parsed = rp_parse_request(c->out.p + c->parsed_out, t.hdr + t.len, RP_AGGR, &r) == 0;
+		if (parsed && !r.has_req && r.has_conf_req) {
+			if (!rp_request_mac_ok(&r, KEY, strlen(KEY))) { HF("request-mac", "emitted configuration request does not carry a valid MAC"); W.violated = 1; }
+			for (i = 0; i < W.nreq; i++) if (W.req[i].is_conf && !W.req[i].sent_complete && !W.req[i].returned) { W.req[i].sent_complete = 1; W.req[i].sent_time = sn_now; break; }
+		} else if (parsed && r.has_req) {
 			if (!rp_request_mac_ok(&r, KEY, strlen(KEY))) { HF("request-mac", "emitted request does not carry a valid MAC"); W.violated = 1; }
 			for (i = 0; i < W.nreq; i++) {
 				unsigned char h[RH_MAX_IMPRINT];
 				size_t hl = ref_fake_imprint(RH_SHA256, W.req[i].seed, h);
-				if (!W.req[i].sent_complete && !W.req[i].returned && r.has_hash && r.hash_len == hl && memcmp(r.hash, h, hl) == 0) {
+				if (!W.req[i].is_conf && !W.req[i].sent_complete && !W.req[i].returned && r.has_hash && r.hash_len == hl && memcmp(r.hash, h, hl) == 0) {
 					W.req[i].sent_complete = 1; W.req[i].id = r.req_id; W.req[i].sent_time = sn_now;
 					break;
 				}
@@ -201,7 +210,13 @@ static void note_arrivals(void) {
 			case 4: for (j = 0; j < W.nreq; j++) if (W.req[j].id == rp->id && W.req[j].sent_complete && !W.req[j].returned) { W.req[j].id_reply_arrived = 1; if (W.req[j].seed == rp->seed) W.req[j].valid_reply_arrived = 1; else if (!W.req[j].valid_reply_arrived) W.req[j].stale_id_reply_arrived = 1; } break;
 			case 1: W.cause_baddata = (int)W.step + 1; break;
 			case 2: W.cause_status = (int)W.step + 1; break;
-			case 3: W.conf_pending++; break;
+			case 3: {
+				int absorbed = 0;
+				W.conf_arrived++;
+				for (j = 0; j < W.nreq; j++) if (W.req[j].is_conf && !W.req[j].returned) absorbed = 1;
+				if (!absorbed) W.conf_pending++;
+				break;
+			}
 			default: break;
 		}
 	}
@@ -223,8 +238,16 @@ static void check_returned(KSI_AsyncHandle *h) {
 	}
 	if (idx < 0) { HF("foreign-handle", "run returned a handle that was never accepted (state %d)", state); W.violated = 1; KSI_AsyncHandle_free(h); return; }
 	W.req[idx].returned = 1; W.nreturned++;
-	W.last_returned_id = W.req[idx].id;
-	if (state == KSI_ASYNC_STATE_RESPONSE_RECEIVED) {
+	if (!W.req[idx].is_conf) W.last_returned_id = W.req[idx].id;
+	if (W.req[idx].is_conf && state == KSI_ASYNC_STATE_PUSH_CONFIG_RECEIVED) {
+		KSI_Config *cf = NULL;
+		vf_outcome("returned:conf-response");
+		/* a configuration request bears no identifier: it is answered by an authentic configuration payload that reached the client after it was accepted */
+		if (W.conf_arrived <= W.req[idx].conf_seen_at_add) { HF("conf-response-without-reply", "configuration request #%d completed with a response although no authentic configuration arrived after it was accepted", idx); W.violated = 1; }
+		if (KSI_AsyncHandle_getConfig(h, &cf) != KSI_OK || cf == NULL) { HF("conf-response-without-config", "configuration request #%d handed back as answered but carries no configuration", idx); W.violated = 1; }
+	} else if (W.req[idx].is_conf && state == KSI_ASYNC_STATE_RESPONSE_RECEIVED) {
+		HF("conf-wrong-final-state", "configuration request #%d handed back in the state of an answered signing request", idx); W.violated = 1;
+	} else if (state == KSI_ASYNC_STATE_RESPONSE_RECEIVED) {
 		KSI_Signature *sig = NULL;
 		int r;
 		vf_outcome("returned:response");
@@ -306,8 +329,35 @@ static int apply_inner(int ev) {
 	sn_conn *c = live_conn();
 	vbuf b;
 	int i, oldest = -1, newest = -1, nun = 0;
-	for (i = 0; i < W.nreq; i++) if (W.req[i].sent_complete && !W.req[i].answered && !W.req[i].returned) { if (oldest < 0) oldest = i; newest = i; nun++; }
+	for (i = 0; i < W.nreq; i++) if (!W.req[i].is_conf && W.req[i].sent_complete && !W.req[i].answered && !W.req[i].returned) { if (oldest < 0) oldest = i; newest = i; nun++; }
 	switch (ev) {
+		case EV_ADD_CONF: {
+			KSI_AsyncHandle *h = NULL;
+			KSI_AggregationReq *rq = NULL;
+			KSI_Config *cf = NULL;
+			int res;
+			if (W.nreq >= MAXREQ) return 0;
+			if (KSI_AggregationReq_new(W.ctx, &rq) != KSI_OK || KSI_Config_new(W.ctx, &cf) != KSI_OK) vf_harness_error("conf request objects");
+			if (KSI_AggregationReq_setConfig(rq, cf) != KSI_OK) vf_harness_error("setConfig");
+			if (KSI_AsyncAggregationHandle_new(W.ctx, rq, &h) != KSI_OK) vf_harness_error("conf handle new");
+			res = KSI_AsyncService_addRequest(W.svc, h);
+			vf_count("impl_calls", 1);
+			if (res == KSI_OK) {
+				if (outstanding() >= W.cfg.cache) { HF("cache-overfull", "configuration request accepted although %d requests are outstanding with cache size %d", outstanding(), W.cfg.cache); W.violated = 1; }
+				memset(&W.req[W.nreq], 0, sizeof W.req[0]);
+				W.req[W.nreq].h = h; W.req[W.nreq].is_conf = 1; W.req[W.nreq].conf_seen_at_add = W.conf_arrived; W.req[W.nreq].add_time = sn_now; W.req[W.nreq].add_step = W.step; W.nreq++;
+				vf_outcome("add-conf:accepted");
+			} else {
+				/* a refusal is a definite answer: the caller keeps the handle and nothing is outstanding for it. It needs a reason:
+				 * the cache is full, or another configuration request is outstanding (its answer bears no id, so only one can be matched) */
+				int k, other = 0;
+				for (k = 0; k < W.nreq; k++) if (W.req[k].is_conf && !W.req[k].returned) other = 1;
+				vf_outcome("add-conf:refused:%s", outstanding() == W.cfg.cache ? "cache-full" : other ? "one-at-a-time" : "other");
+				if (res != KSI_ASYNC_REQUEST_CACHE_FULL || (outstanding() != W.cfg.cache && !other)) { HF("conf-refused-without-reason", "configuration request refused with 0x%x while %d requests are outstanding (cache size %d) and no other configuration request is", res, outstanding(), W.cfg.cache); W.violated = 1; }
+				KSI_AsyncHandle_free(h);
+			}
+			return 1;
+		}
 		case EV_ADD: {
 			KSI_AsyncHandle *h = NULL;
 			KSI_DataHash *dh = NULL;
@@ -464,7 +514,7 @@ static uint64_t state_key(void) {
 	for (k = 0; k < W.nreq; k++) {
 		sreq_t *r = &W.req[k];
 		if (r->returned) continue;
-		h = mix(h, (uint64_t)(r->sent_complete | r->valid_reply_arrived << 1 | r->answered << 2 | r->id_reply_arrived << 3 | r->stale_id_reply_arrived << 4 | 0)); h = mix(h, r->id); h = mix(h, age(r->add_time, maxto)); h = mix(h, r->sent_complete ? age(r->sent_time, maxto) : 77);
+		h = mix(h, (uint64_t)(r->sent_complete | r->valid_reply_arrived << 1 | r->answered << 2 | r->id_reply_arrived << 3 | r->stale_id_reply_arrived << 4 | r->is_conf << 5 | (r->is_conf && W.conf_arrived > r->conf_seen_at_add) << 6)); h = mix(h, r->id); h = mix(h, age(r->add_time, maxto)); h = mix(h, r->sent_complete ? age(r->sent_time, maxto) : 77);
 	}
 	for (k = 0; k < W.nreply; k++) if (!W.reply[k].arrived) { h = mix(h, (uint64_t)W.reply[k].kind); h = mix(h, W.reply[k].id); }
 	return h;
@@ -510,12 +560,17 @@ static int replay(const config_t *cfg, const int *hist, int n) {
 
 static void hist_name(const int *hist, int n, char *out) { int i; for (i = 0; i < n; i++) out[i] = EVCH[hist[i]]; out[n] = 0; }
 
+/* the alphabet of the current search (the 21 main events by default) */
+static int g_alpha[EV_NALL], g_nalpha;
+static void alpha_main(void) { int e; g_nalpha = 0; for (e = 0; e < EV_NEVENTS; e++) g_alpha[g_nalpha++] = e; }
+
 static void explore(const config_t *cfg, int *hist, int n, int maxdepth) {
 	uint64_t key;
-	int ev, enabled[EV_NEVENTS], nen = 0;
+	int ev, enabled[EV_NALL], nen = 0;
 	/* 1. reach the state, evaluate the invariant (done inside apply), compute its key */
 	if (!replay(cfg, hist, n)) { world_close(); return; }
 	n_traces++;
+	if ((n_traces % 20000) == 0 && getenv("VF_PROGRESS")) fprintf(stderr, "traces=%ld states=%ld pruned=%ld transitions=%ld hist=%s\n", n_traces, n_states, n_pruned, n_transitions, g_hist);
 	if (W.violated) { world_close(); return; }
 	key = state_key();
 	if (seen_check(key, maxdepth - n)) { n_pruned++; world_close(); return; }
@@ -524,7 +579,7 @@ static void explore(const config_t *cfg, int *hist, int n, int maxdepth) {
 	drain();
 	world_close();
 	if (n >= maxdepth) return;
-	for (ev = 0; ev < EV_NEVENTS; ev++) enabled[nen++] = ev;
+	for (ev = 0; ev < g_nalpha; ev++) enabled[nen++] = g_alpha[ev];
 	for (ev = 0; ev < nen; ev++) { hist[n] = enabled[ev]; explore(cfg, hist, n + 1, maxdepth); }
 }
 
@@ -627,10 +682,37 @@ static void part_dfs(void) {
 	}
 }
 
+/* configuration requests: they bear no id and occupy no cache slot; any authentic configuration payload answers the
+ * outstanding one. Searched with their own alphabet (the main search keeps its 21 events). */
+static void part_conf(void) {
+	static const int ALPHA[] = {EV_ADD_CONF, EV_ADD, EV_RUN, EV_PUSH_CONF, EV_REPLY_OLDEST, EV_ERROR_PDU, EV_DELIVER_ALL, EV_PEER_CLOSE, EV_CLOCK_BIG, EV_DELIVER_HALF, EV_SEND_WOULDBLOCK};
+	static const int CFGI[] = {1, 0, 5};
+	int na = VF_THOROUGH ? 11 : 9, ci, a1, a2, depth = VF_THOROUGH ? 8 : 6, e;
+	for (ci = 0; ci < (VF_THOROUGH ? 3 : 2); ci++) for (a1 = 0; a1 < na; a1++) for (a2 = 0; a2 < na; a2++) {
+		int hist[16];
+		char nm[8];
+		if (!vf_case_begin("conf:cfg%d:%c%c:d%d", CFGI[ci], EVCH[ALPHA[a1]], EVCH[ALPHA[a2]], depth)) continue;
+		g_nalpha = 0;
+		for (e = 0; e < na; e++) g_alpha[g_nalpha++] = ALPHA[e];
+		memset(seen, 0, ((size_t)1 << SEEN_BITS) * sizeof *seen);
+		n_states = n_transitions = n_pruned = n_traces = 0;
+		hist[0] = ALPHA[a1]; hist[1] = ALPHA[a2];
+		explore(&CONFIGS[CFGI[ci]], hist, 2, depth);
+		vf_count("states", n_states); vf_count("transitions", n_transitions); vf_count("traces", n_traces); vf_count("pruned_revisits", n_pruned);
+		hist_name(hist, 2, nm);
+		if (ci == 0 && a1 == 0 && a2 == 2) vf_sample("conf part: cfg %d prefix %s depth %d over {add-conf, add, run, config payload, reply, error PDU, deliver all, peer close, clock (thorough: + deliver half, would-block)}: %ld states, %ld transitions", CFGI[ci], nm, depth, n_states, n_transitions);
+		vf_obs("states=%ld", n_states);
+		alpha_main();
+		vf_case_end(n_traces > 0);
+	}
+}
+
 static void run(void) {
 	int ci, e1, e2, e3;
 	int depth = VF_THOROUGH ? 8 : 6;
 	seen = calloc((size_t)1 << SEEN_BITS, sizeof *seen);
+	alpha_main();
+	part_conf();
 	for (ci = 0; ci < NCONFIGS; ci++) {
 		int d = depth;
 		if (!VF_THOROUGH && ci >= 4) d = depth - 1;
